@@ -25,6 +25,8 @@ def check(model, R, tier):
     check_bn_form(model, R)
     check_enum(model, R)
     check_plumb(model, R)
+    from sa.props.c12 import check_super_roles
+    check_super_roles(model, R, 'C06')
     return dict(
         explanation='Decides: int-or-tuple geometry arguments are normalised before any per-axis use (kernels, conv_tools, layer constructors); the output-size formula floor((L+2p-d(k-1)-1)/s)+1 at all 8 sites; empty outputs raise; '
                     'max pooling pads with -inf and average pooling / convolution with 0, reducers over the full window; batch norm divides by sqrt(var + eps) with the biased variance; string-mode dispatch of Loss.reduction is exhaustive; '
